@@ -27,7 +27,7 @@ CLAIMED = {
  "C08": dict(text="Theorems: one-step retention (a stored frame stops being stored only by an explicit remove, a write under its own id, or a gc task that names it / finds it "
              "outside the keep newest of exactly its context and topic) for every reachable state; every queued task is justified by the history (Remove ⇐ a read found that frame's "
              "time:N elapsed; CheckHeadTTL ⇐ an accepted head:k append); head collection never touches other topics (prefix-related included) or contexts; expiry is exactly ts+N ≤ now.",
-             design="5/C08", technique="Lean 4 proof by induction over histories (gc queue provenance) + differential execution with a gated collector and a controlled clock"),
+             design="5/C08", technique="Lean 4 proof by induction over histories (gc queue provenance) + differential execution with a gated collector and a controlled clock, and with explicit removals racing the free-running head:N collector"),
  "C09": dict(text="Theorems: an ephemeral append changes no partition/registry/queue and is broadcast; time:N frames are returned by neither read path once elapsed and are gone after "
              "an unlimited read + drain; a pending head:k check leaves at most k frames after drain and the survivors are exactly the k newest.",
              design="5/C09", technique="Lean 4 proof over the gc model + differential execution (clock at expiry ±1 ms, per-task gc release)"),
